@@ -124,6 +124,27 @@ theorem build_stages (H : Str → Str) (pr : Char → Bool) (fs : FS) (cfs : Ctx
   all_goals
     exact ⟨⟨_, _, _, _, _, _, _, by assumption, by assumption, by assumption, by assumption, by assumption, by assumption, rfl⟩⟩
 
+/-- the context stage of `build` -/
+def ctxStage (cfs : CtxFS) (fuel : Nat) (ctxSrc : Option CtxSrc) : Except Err (Option Ctx) :=
+  match ctxSrc with
+  | none => pure none
+  | some s => (prepareCtx cfs fuel s none).map some
+
+/-- `build_stages`, together with where the context of the stages comes from -/
+theorem build_stages_ctx (H : Str → Str) (pr : Char → Bool) (fs : FS) (cfs : CtxFS) (classes : Classes)
+    (main : Str) (mainNs : Option Str) (ctxSrc : Option CtxSrc) (reg : Registry) (next : Nat) (fuel : Nat) (c : Chain)
+    (h : build H pr fs cfs classes main mainNs ctxSrc reg next fuel = .ok c) :
+    ∃ S : Stages H pr fs classes main mainNs reg next fuel c, ctxStage cfs fuel ctxSrc = .ok S.ctx := by
+  unfold build at h
+  simp only [bind, Except.bind, pure, Except.pure] at h
+  repeat' split at h
+  all_goals first | cases h | skip
+  all_goals
+    refine ⟨⟨_, _, _, _, _, _, _, by assumption, by assumption, by assumption, by assumption, by assumption, by assumption, rfl⟩, ?_⟩
+    first
+      | rfl
+      | (simp only [ctxStage]; assumption)
+
 /-! ## consequences for every chain that `build` returns -/
 
 section
